@@ -627,3 +627,267 @@ def _c19_check(case):
 StandIn("c19_distance_strings_and_sphere", _c19_cases, _c19_check,
         bound="generated distance strings (numbers x units x spacing x malformed forms), random point triples on the sphere incl. "
               "poles / antimeridian, circle / annulus kernels for radii <= 25 cells")
+
+
+# =========================================================================== C02 / C03 / C04 zonal statistics and cross-tabulation
+def _zonal_raster(rng, shape, kind):
+    h, w = shape
+    if kind == "int":
+        pool = [0, 1, 2, 5, -3, 7]
+        z = np.array([rng.choice(pool[:rng.randint(2, len(pool))]) for _ in range(h * w)], dtype="int64").reshape(h, w)
+    else:
+        pool = [0.0, 1.0, 2.5, -3.0, 7.0, 0.5]
+        z = np.array([rng.choice(pool[:rng.randint(2, len(pool))]) for _ in range(h * w)], dtype="float64").reshape(h, w)
+        for _ in range(rng.randint(0, 3)):
+            z[rng.randrange(h), rng.randrange(w)] = rng.choice([np.nan, np.nan, np.inf, -np.inf])
+    return z
+
+
+def _value_raster(rng, shape, kind):
+    h, w = shape
+    if kind == "int":
+        return np.array([rng.randint(-2, 6) for _ in range(h * w)], dtype="int64").reshape(h, w)
+    v = np.array([rng.choice([0.0, 1.0, 2.0, 3.5, -1.0, 6.0, 1.0]) for _ in range(h * w)], dtype="float64").reshape(h, w)
+    for _ in range(rng.randint(0, 3)):
+        v[rng.randrange(h), rng.randrange(w)] = rng.choice([np.nan, np.inf, -np.inf, np.nan])
+    return v
+
+
+def _stats_cases(rng, tier, backend="numpy"):
+    while True:
+        shape = (rng.randint(1, 5), rng.randint(1, 6))
+        zk, vk = rng.choice(["int", "float"]), rng.choice(["int", "float"])
+        z = _zonal_raster(rng, shape, zk)
+        v = _value_raster(rng, shape, vk)
+        present = sorted(set(float(x) for x in z.ravel() if np.isfinite(x)))
+        case = {"zones": enc(z), "values": enc(v), "backend": backend,
+                "stats": rng.sample(["mean", "max", "min", "sum", "std", "var", "count"], rng.randint(1, 7)),
+                "nodata": rng.choice([None, None, 0, 1, 3.5]),
+                "return_type": "pandas.DataFrame" if backend == "dask" or rng.random() < 0.7 else "xarray.DataArray"}
+        r = rng.random()
+        if r < 0.5:
+            case["zone_ids"] = None
+        else:
+            ids = rng.sample(present + [99.0], rng.randint(1, min(3, len(present) + 1))) if present else [99.0]
+            rng.shuffle(ids)
+            case["zone_ids"] = ids
+        if backend == "dask":
+            case["zchunks"] = [list(_compositions(shape[0], rng)), list(_compositions(shape[1], rng))]
+            case["vchunks"] = case["zchunks"] if rng.random() < 0.5 else [list(_compositions(shape[0], rng)), list(_compositions(shape[1], rng))]
+        yield case
+
+
+def _ref_stat(name, vals):
+    vals = np.asarray(vals, dtype="float64")
+    if len(vals) == 0:
+        return np.nan
+    return {"mean": np.mean, "max": np.max, "min": np.min, "sum": np.sum, "std": np.std, "var": np.var,
+            "count": lambda a: float(len(a))}[name](vals)
+
+
+def _stats_check(case):
+    import warnings
+    import xarray as xr
+    from xrspatial.zonal import stats
+    z, v = dec_arr(case["zones"]), dec_arr(case["values"])
+    be = case["backend"]
+    if be == "dask":
+        import dask.array as da
+        zd = xr.DataArray(da.from_array(z, chunks=tuple(tuple(c) for c in case["zchunks"])))
+        vd = xr.DataArray(da.from_array(v, chunks=tuple(tuple(c) for c in case["vchunks"])))
+    else:
+        zd, vd = xr.DataArray(z.copy()), xr.DataArray(v.copy())
+    kw = dict(stats_funcs=list(case["stats"]), return_type=case["return_type"])
+    if case["zone_ids"] is not None:
+        kw["zone_ids"] = list(case["zone_ids"])
+    if case["nodata"] is not None:
+        kw["nodata_values"] = case["nodata"]
+    present = sorted(set(float(x) for x in z.ravel() if np.isfinite(x)))
+    sel = present if case["zone_ids"] is None else [p for p in present if p in set(float(i) for i in case["zone_ids"])]
+    if be == "dask" and not sel:
+        return None           # property domain: at least one requested zone exists
+    with warnings.catch_warnings():
+        warnings.simplefilter("ignore")
+        try:
+            out = stats(zd, vd, **kw)
+            if be == "dask":
+                out = out.compute()
+        except Exception as e:
+            if not present or not sel:
+                return None   # degenerate: no zone at all
+            return "stats raised %r" % e
+    nod = case["nodata"]
+
+    def valid(zid):
+        m = (z == zid)
+        vals = v[m]
+        vals = vals[np.isfinite(vals)]
+        if nod is not None:
+            vals = vals[vals != nod]
+        return vals
+    if case["return_type"] == "pandas.DataFrame":
+        got_zones = [float(x) for x in out["zone"].tolist()]
+        if got_zones != sel:
+            return "rows are zones %r, expected %r (ascending, restricted to requested zones that exist)" % (got_zones, sel)
+        for r, zid in enumerate(sel):
+            vals = valid(zid)
+            for s in case["stats"]:
+                exp = _ref_stat(s, vals)
+                g = float(out[s].iloc[r])
+                if not same(g, exp, 1e-9):
+                    return "zone %r %s = %r, expected %r over valid cells %r" % (zid, s, g, exp, vals.tolist())
+    else:
+        arr = np.asarray(out.values)
+        for k, s in enumerate(case["stats"]):
+            exp = np.full(z.shape, np.nan)
+            for zid in sel:
+                exp[z == zid] = _ref_stat(s, valid(zid))
+            if not same(arr[k].reshape(z.shape), exp, 1e-9):
+                return "raster mode %s: got %r expected %r" % (s, arr[k].tolist(), exp.tolist())
+    return None
+
+
+StandIn("c02_zonal_stats", lambda rng, tier: _stats_cases(rng, tier, "numpy"), _stats_check,
+        bound="random zone rasters up to 5x6 (int / float ids, negative and fractional, NaN / +-inf zone cells) x value rasters "
+              "(ints, floats, NaN/inf) x nodata x zone_ids (any order, absent ids) x stat subsets x both return types; NumPy backend")
+StandIn("c03_zonal_stats_dask", lambda rng, tier: _stats_cases(rng, tier, "dask"), _stats_check,
+        bound="as c02_zonal_stats on Dask-backed rasters with independent random chunkings of zones and values, compared with the "
+              "direct per-zone reference")
+
+
+def _crosstab_cases(rng, tier, backend="numpy"):
+    while True:
+        shape = (rng.randint(1, 5), rng.randint(1, 6))
+        z = _zonal_raster(rng, shape, rng.choice(["int", "float"]))
+        three_d = rng.random() < 0.3
+        if three_d:
+            nl = rng.randint(1, 3)
+            v = np.stack([_value_raster(rng, shape, "float") for _ in range(nl)])
+        else:
+            v = _value_raster(rng, shape, rng.choice(["int", "float"]))
+        present = sorted(set(float(x) for x in z.ravel() if np.isfinite(x)))
+        case = {"zones": enc(z), "values": enc(v), "backend": backend, "three_d": three_d,
+                "agg": rng.choice(["count", "percentage"]) if not three_d else (
+                    "count" if backend == "dask" else rng.choice(["count", "sum", "min", "max", "mean", "std", "var"])),
+                "nodata": rng.choice([None, None, 0, 1])}
+        if rng.random() < 0.5 and present:
+            ids = rng.sample(present + [99.0], rng.randint(1, min(3, len(present) + 1)))
+            rng.shuffle(ids)
+            case["zone_ids"] = ids
+        else:
+            case["zone_ids"] = None
+        cats = sorted(set(float(x) for x in v.ravel() if np.isfinite(x))) if not three_d else list(range(v.shape[0]))
+        if rng.random() < 0.5 and cats and not three_d:
+            c = rng.sample(cats + [77.0], rng.randint(1, min(3, len(cats) + 1)))
+            rng.shuffle(c)
+            case["cat_ids"] = c
+        else:
+            case["cat_ids"] = None
+        if backend == "dask":
+            case["zchunks"] = [list(_compositions(shape[0], rng)), list(_compositions(shape[1], rng))]
+            case["vchunks"] = case["zchunks"] if rng.random() < 0.5 else [list(_compositions(shape[0], rng)), list(_compositions(shape[1], rng))]
+        yield case
+
+
+def _valid3(layer, m, nod):
+    vals = layer[m]
+    vals = vals[np.isfinite(vals)]
+    if nod is not None:
+        vals = vals[vals != nod]
+    return vals
+
+
+def _crosstab_check(case):
+    import warnings
+    import xarray as xr
+    from xrspatial.zonal import crosstab
+    z, v = dec_arr(case["zones"]), dec_arr(case["values"])
+    be = case["backend"]
+    three = case["three_d"]
+    if be == "dask":
+        import dask.array as da
+        zc = tuple(tuple(c) for c in case["zchunks"])
+        vc = tuple(tuple(c) for c in case["vchunks"])
+        zd = xr.DataArray(da.from_array(z, chunks=zc), dims=["y", "x"])
+        vd = xr.DataArray(da.from_array(v, chunks=((1,) * v.shape[0],) + vc if three else vc), dims=(["layer", "y", "x"] if three else ["y", "x"]))
+    else:
+        zd = xr.DataArray(z.copy(), dims=["y", "x"])
+        vd = xr.DataArray(v.copy(), dims=(["layer", "y", "x"] if three else ["y", "x"]))
+    if three:
+        vd = vd.assign_coords(layer=list(range(v.shape[0])))
+    kw = dict(agg=case["agg"])
+    if case["zone_ids"] is not None:
+        kw["zone_ids"] = list(case["zone_ids"])
+    if case["cat_ids"] is not None:
+        kw["cat_ids"] = list(case["cat_ids"])
+    if case["nodata"] is not None:
+        kw["nodata_values"] = case["nodata"]
+    if three:
+        kw["layer"] = 0
+    present = sorted(set(float(x) for x in z.ravel() if np.isfinite(x)))
+    sel = present if case["zone_ids"] is None else [p for p in present if p in set(float(i) for i in case["zone_ids"])]
+    if not sel:
+        return None
+    nod = case["nodata"]
+    if three:
+        cats = list(range(v.shape[0]))
+    else:
+        fv = v[np.isfinite(v)]
+        if nod is not None:
+            fv = fv[fv != nod]
+        allc = sorted(set(float(x) for x in fv))
+        cats = allc if case["cat_ids"] is None else [c for c in allc if c in set(float(i) for i in case["cat_ids"])]
+    with warnings.catch_warnings():
+        warnings.simplefilter("ignore")
+        try:
+            out = crosstab(zd, vd, **kw)
+            if be == "dask":
+                out = out.compute()
+        except Exception as e:
+            if not cats:
+                return None
+            if three and any(len(_valid3(v[k], z == zid, nod)) == 0 for zid in sel for k in range(v.shape[0])):
+                return None       # aggregate of an empty cell set (max/min/mean of nothing): degenerate, not claimed
+            return "crosstab raised %r" % e
+    got_zones = [float(x) for x in out["zone"].tolist()]
+    if got_zones != sel:
+        return "rows are zones %r, expected %r" % (got_zones, sel)
+    cols = [c for c in out.columns if c != "zone"]
+    if sorted(float(c) for c in cols) != [float(c) for c in cats] or len(set(cols)) != len(cols):
+        return "columns are %r, expected exactly the categories %r (any order, each labelled)" % (cols, cats)
+    for r, zid in enumerate(sel):
+        m = (z == zid)
+        if three:
+            for k, c in enumerate(cols):
+                vals = v[k][m]
+                vals = vals[np.isfinite(vals)]
+                if nod is not None:
+                    vals = vals[vals != nod]
+                exp = _ref_stat(case["agg"], vals) if len(vals) else np.nan
+                g = float(out[c].iloc[r])
+                if len(vals) == 0:
+                    continue      # aggregate of an empty cell set: degenerate, not claimed
+                if not same(g, exp, 1e-9):
+                    return "zone %r layer %r %s = %r, expected %r" % (zid, c, case["agg"], g, exp)
+        else:
+            vals = v[m]
+            vals = vals[np.isfinite(vals)]
+            if nod is not None:
+                vals = vals[vals != nod]
+            total = len(vals)
+            for c in cols:
+                cnt = float(np.sum(vals == float(c)))
+                exp = cnt if case["agg"] == "count" else (cnt / total * 100 if total else np.nan)
+                g = float(out[c].iloc[r])
+                if case["agg"] == "percentage" and total == 0 and (np.isnan(g) or g == 0):
+                    continue
+                if not same(g, exp, 1e-9):
+                    return "zone %r category %r: %s = %r, expected %r (zone has %d valid cells)" % (zid, c, case["agg"], g, exp, total)
+    return None
+
+
+StandIn("c04_crosstab", lambda rng, tier: _crosstab_cases(rng, tier, "numpy"), _crosstab_check,
+        bound="random zones/values up to 5x6 (2-D count/percentage, 3-D seven aggregates up to 3 layers), nodata, zone_ids / cat_ids "
+              "subsets in random order incl. absent ids; NumPy backend")
+StandIn("c03_crosstab_dask", lambda rng, tier: _crosstab_cases(rng, tier, "dask"), _crosstab_check,
+        bound="as c04_crosstab on Dask-backed rasters with independent random chunkings of zones and values")
